@@ -8,7 +8,7 @@ Open Scope N_scope.
 
 Definition stream_entry (id : N) : M (N * N) :=
   do e <- dir_entry id;
-  if negb (objtype_eqb (d_type e) TStream) then panic 601      (* debug_assert_eq!(obj_type, Stream) *)
+  if negb (objtype_eqb (d_type e) TStream) then fail ENotFound    (* the stream was removed behind the handle *)
   else ret (d_start e, d_len e).
 
 (* read_data_from_stream: returns the bytes read (buf[..num_bytes]) *)
@@ -33,7 +33,7 @@ Definition update_entry (id start len : N) : M unit :=
 (* write_data_to_stream *)
 Definition write_data (id off : N) (buf : list byte) : M unit :=
   do '(old_start, old_len) <- stream_entry id;
-  (if old_len <? off then panic 602 else ret tt) ;;            (* debug_assert!(offset <= old_len) *)
+  (if old_len <? off then fail EInvalidInput else ret tt) ;;   (* the stream was shortened behind the handle *)
   let new_len := N.max old_len (off + lenN buf) in
   do new_start <-
     (if old_start =? END_OF_CHAIN then
